@@ -172,7 +172,10 @@ def r3(ctx):
     p = ctx.prog
     f = p.func(f"{BASE}.extract_tar_stream")
     g = f.cfg
-    loops = [x for x in f.body_nodes() if isinstance(x, ast.While) and "inputfile.read" in unparse(x.test)]
+    from ..roles import vars_from
+
+    readers = vars_from(f, lambda e: "extractfile" in unparse(e))
+    loops = [x for x in f.body_nodes() if isinstance(x, ast.While) and any(f"{r}.read" in unparse(x.test) for r in readers)]
     ctx.require(len(loops) == 1, "C23.R3: member copy loop not found in extract_tar_stream")
     lp = loops[0]
     lt = g.ids_of(lp.test)
@@ -182,7 +185,7 @@ def r3(ctx):
     ok = False
     for c in checks:
         branch = "t" if isinstance(c.ast.ops[0], (ast.NotEq, ast.Lt, ast.Gt)) else "f"
-        raises = any(g.nodes[b].kind == "raise_stmt" for b, k in g.succ[c.id] if k == branch)
+        raises = any(g.nodes[b].kind == "raise_stmt" for b in g.real_succ(c.id, branch))
         after = all(c.id in g.reach([t]) for t in lt)
         # every normal path from the loop exit to the acceptance (chmod / exit) passes the check
         esc = g.path(lt[0], [g.exit] + [n.id for n in g.nodes.values() if any(unparse(x.func) == "os.chmod" for x in n.calls())], avoid=[c.id])
@@ -199,14 +202,19 @@ def r3(ctx):
     ctx.ob("R3", "makefile copies exactly the member size through copyfileobj", ok2, func=mk, node=mk.node, instance="makefile:sized")
     cf = p.func(f"{MOD}.copyfileobj")
     src = unparse(cf.node)
-    ok3 = "divmod(length, bufsize)" in src and "for _ in range(blocks)" in src and "await write(src, dst, bufsize)" in src and "await write(src, dst, remainder)" in src
+    from ..roles import tuple_vars_from as _tv
+
+    dvv = [t for t in _tv(cf, lambda e: unparse(e) == "divmod(length, bufsize)") if len(t) == 2 and all(t)]
+    cb, cr = dvv[0] if dvv else ("blocks", "remainder")
+    ok3 = bool(dvv) and f"in range({cb})" in src and "await write(src, dst, bufsize)" in src and f"await write(src, dst, {cr})" in src
     ctx.ob("R3", "copyfileobj copies blocks*bufsize + remainder bytes", ok3, func=cf, node=cf.node, instance="copyfileobj:split")
     # extractfile hands out a reader bounded by the member size
     ef = p.func(f"{MOD}.AioTarStream.extractfile")
     okb = False
     for c in ef.calls():
         kw = {k.arg: unparse(k.value) for k in c.keywords}
-        if kw.get("offset") == "tarinfo.offset_data" and kw.get("size") == "tarinfo.size" and kw.get("stream") == "self.stream":
+        if kw.get("offset", "").endswith(".offset_data") and kw.get("size", "").endswith(".size") and kw.get("stream") == "self.stream" \
+                and kw["offset"].rsplit(".", 1)[0] == kw["size"].rsplit(".", 1)[0]:
             okb = True
     ctx.ob("R3", "extractfile bounds the reader by offset_data and size", okb, func=ef, node=ef.node, instance="extractfile:bounded")
 
@@ -216,30 +224,39 @@ def r4(ctx):
     f = p.func(f"{MOD}.AioTarStream.addfile")
     g = f.cfg
     src = unparse(f.node)
-    hdr = [n for n in g.nodes.values() if any(isinstance(c.func, ast.Attribute) and c.func.attr == "write" and unparse(c.args[0]) == "buf" for c in n.calls() if c.args)]
+    from ..roles import vars_from
+
+    hb = vars_from(f, lambda e: isinstance(e, ast.Call) and isinstance(e.func, ast.Attribute) and e.func.attr == "tobuf")
+    HB = hb[0] if hb else "buf"
+    hdr = [n for n in g.nodes.values() if any(isinstance(c.func, ast.Attribute) and c.func.attr == "write" and unparse(c.args[0]) == HB for c in n.calls() if c.args)]
     data = [n for n in g.nodes.values() if any(unparse(c.func) == "copyfileobj" for c in n.calls())]
     ctx.require(bool(hdr) and bool(data), "C23.R4: header write / data copy not found in addfile")
     ctx.ob("R4", "the header block is written before the data", g.dominates([h.id for h in hdr], data[0].id), func=f, node=data[0].ast, instance="addfile:header-first")
     dc = [c for n in data for c in n.calls() if unparse(c.func) == "copyfileobj"][0]
     ctx.ob("R4", "exactly tarinfo.size bytes of data are copied", len(dc.args) >= 3 and unparse(dc.args[2]) == "tarinfo.size", func=f, node=dc, instance="addfile:size")
-    pad = [n for n in f.body_nodes() if isinstance(n, ast.If) and unparse(n.test) in ("remainder > 0", "remainder != 0", "remainder")]
+    from ..roles import tuple_vars_from
+
+    dv = [t for t in tuple_vars_from(f, lambda e: unparse(e) == "divmod(tarinfo.size, tarfile.BLOCKSIZE)") if len(t) == 2 and all(t)]
+    BL, RM = dv[0] if dv else ("blocks", "remainder")
+    dm = bool(dv)
+    pad = [n for n in f.body_nodes() if isinstance(n, ast.If) and unparse(n.test) in (f"{RM} > 0", f"{RM} != 0", RM)]
     okpad = False
     for pd in pad:
-        w = [c for s in pd.body for c in ast.walk(s) if isinstance(c, ast.Call) and isinstance(c.func, ast.Attribute) and c.func.attr == "write"]
-        inc = [s for s in pd.body if isinstance(s, ast.AugAssign) and unparse(s.target) == "blocks" and unparse(s.value) == "1"]
-        if w and inc and unparse(w[0].args[0]).replace(" ", "") == "tarfile.NUL*(tarfile.BLOCKSIZE-remainder)":
+        w = [c for st in pd.body for c in ast.walk(st) if isinstance(c, ast.Call) and isinstance(c.func, ast.Attribute) and c.func.attr == "write"]
+        inc = [st for st in pd.body if isinstance(st, ast.AugAssign) and unparse(st.target) == BL and unparse(st.value) == "1"]
+        if w and inc and unparse(w[0].args[0]).replace(" ", "") == f"tarfile.NUL*(tarfile.BLOCKSIZE-{RM})":
             okpad = True
-    dm = any(unparse(d.value) == "divmod(tarinfo.size, tarfile.BLOCKSIZE)" for d in defs_of(f, "remainder"))
     ctx.ob("R4", "data is padded with NULs to a multiple of BLOCKSIZE", okpad and dm, func=f, node=f.node, instance="addfile:padding",
            message="member data is not padded to the 512-byte block: every later header is misaligned")
     off = [n for n in f.body_nodes() if isinstance(n, ast.AugAssign) and unparse(n.target) == "self.offset"]
-    okoff = {unparse(n.value) for n in off} == {"len(buf)", "blocks * tarfile.BLOCKSIZE"}
+    okoff = {unparse(n.value) for n in off} == {f"len({HB})", f"{BL} * tarfile.BLOCKSIZE"}
     ctx.ob("R4", "the stream offset accounts header and whole data blocks", okoff, func=f, node=f.node, instance="addfile:offset")
     c = p.func(f"{MOD}.AioTarStream._close")
     src = unparse(c.node)
-    ok = "tarfile.NUL * (tarfile.BLOCKSIZE * 2)" in src and "divmod(self.offset, tarfile.RECORDSIZE)" in src and "tarfile.NUL * (tarfile.RECORDSIZE - remainder)" in src
+    dvc = [t for t in tuple_vars_from(c, lambda e: unparse(e) == "divmod(self.offset, tarfile.RECORDSIZE)") if len(t) == 2 and t[1]]
+    ok = "tarfile.NUL * (tarfile.BLOCKSIZE * 2)" in src and bool(dvc) and f"tarfile.NUL * (tarfile.RECORDSIZE - {dvc[0][1]})" in src
     ctx.ob("R4", "_close writes two zero blocks and pads the archive to RECORDSIZE", ok, func=c, node=c.node, instance="_close:trailer")
-    fin = [n for n in c.body_nodes() if isinstance(n, ast.Try) and n.finalbody and "self.stream.close()" in unparse(n.finalbody[0])]
+    fin = [n for n in c.body_nodes() if isinstance(n, ast.Try) and n.finalbody and any("self.stream.close()" in unparse(x) for x in n.finalbody)]
     ctx.ob("R4", "_close always closes the underlying stream", bool(fin), func=c, node=c.node, instance="_close:finally")
 
 
@@ -247,11 +264,15 @@ def r5(ctx):
     p = ctx.prog
     f = p.func(f"{MOD}.AioTarInfo.fromtarfile")
     src = unparse(f.node)
-    ok = "tarstream.stream.read(tarfile.BLOCKSIZE)" in src and "obj.offset = tarstream.stream.tell() - tarfile.BLOCKSIZE" in src
+    ok = "tarstream.stream.read(tarfile.BLOCKSIZE)" in src and ".offset = tarstream.stream.tell() - tarfile.BLOCKSIZE" in src
     ctx.ob("R5", "a header is one BLOCKSIZE read and the member offset is tell() - BLOCKSIZE", ok, func=f, node=f.node, instance="fromtarfile:block")
     b = p.func(f"{MOD}.AioTarInfo._proc_builtin")
     src = unparse(b.node)
-    ok = "self.offset_data = tarstream.stream.tell()" in src and "offset += self._block(self.size)" in src and "tarstream.offset = offset" in src
+    from ..roles import vars_from as _vf
+
+    ov = _vf(b, lambda e: unparse(e) == "self.offset_data")
+    OV = ov[0] if ov else "offset"
+    ok = "self.offset_data = tarstream.stream.tell()" in src and f"{OV} += self._block(self.size)" in src and f"tarstream.offset = {OV}" in src
     ctx.ob("R5", "the next header is expected after _block(size) bytes of data", ok, func=b, node=b.node, instance="_proc_builtin:next-offset")
     n = p.func(f"{MOD}.AioTarStream.next")
     g = n.cfg
@@ -271,9 +292,10 @@ def r5(ctx):
     ctx.ob("R5", "seek moves forward only and refuses to go backward", ok, func=sk, node=sk.node, instance="seek:forward-only")
     rd = p.func(f"{MOD}.TellableStreamWrapper.read")
     lp = [x for x in rd.body_nodes() if isinstance(x, ast.While)]
-    acc = [x for x in rd.body_nodes() if isinstance(x, ast.AugAssign) and unparse(x.target) == "buf" and isinstance(x.op, ast.Add)]
     ret = [x for x in rd.body_nodes() if isinstance(x, ast.Return)]
-    ok = bool(lp) and bool(acc) and len(ret) == 1 and unparse(ret[0].value) == "buf"
+    RB = unparse(ret[0].value) if len(ret) == 1 and isinstance(ret[0].value, ast.Name) else "buf"
+    acc = [x for x in rd.body_nodes() if isinstance(x, ast.AugAssign) and unparse(x.target) == RB and isinstance(x.op, ast.Add)]
+    ok = bool(lp) and bool(acc) and len(ret) == 1 and unparse(ret[0].value) == RB
     ctx.ob("R5", "TellableStreamWrapper.read loops until the requested size or EOF and returns everything it read", ok, func=rd, node=rd.node, instance="tellable:loop")
 
 
